@@ -246,7 +246,9 @@ func buildAssertion(a AssnSpec) *etree.Element {
 			if m == "" {
 				m = bearerMethod
 			}
-			ce.CreateAttr("Method", m)
+			if m != "-" { // "-": no Method attribute at all
+				ce.CreateAttr("Method", m)
+			}
 			if !c.NoData {
 				d := ce.CreateElement("saml:SubjectConfirmationData")
 				setAttr(d, "InResponseTo", c.InResponseTo)
